@@ -116,7 +116,7 @@ def judge(ctx: core.Ctx, case: dict[str, Any]) -> None:
         toks = []
         for t in case["tokens"]:
             if isinstance(t, dict):
-                toks.append(("atom", t["v"]))
+                toks.append(("atom", t["v"] if isinstance(t["v"], bool) else M.truthy(("val", V.dec(t["v"])))))
             else:
                 toks.append(t)
         exp = M.eval_flat(toks)
@@ -124,7 +124,7 @@ def judge(ctx: core.Ctx, case: dict[str, Any]) -> None:
         for t in case["tokens"]:
             if isinstance(t, dict):
                 if t.get("name"):
-                    data[t["name"]] = t["v"]
+                    data[t["name"]] = V.dec(t["v"]) if not isinstance(t["v"], bool) else t["v"]
                     parts.append(t["name"])
                 else:
                     parts.append("true" if t["v"] else "false")
@@ -132,6 +132,54 @@ def judge(ctx: core.Ctx, case: dict[str, Any]) -> None:
                 parts.append(t)
         src = wrap(case["ctx"], " ".join(parts).replace("( ", "(").replace(" )", ")"))
         sig_tail = "logical-grouping"
+    elif k == "nestcase":
+        # case inside a when block of another case, each with its own subject
+        vals = {n: model_operand(v) for n, v in case["vals"].items()}
+        for n, v in case["vals"].items():
+            if v["t"] == "val":
+                data[n] = V.dec(v["v"])
+
+        def run_case(spec) -> Any:
+            subj = vals[spec["subject"]]
+            out = []
+            matched = False
+            for w in spec["whens"]:
+                r = M.eq(subj, vals[w["value"]])
+                if r is M.UNSPEC:
+                    return M.UNSPEC
+                if r:
+                    matched = True
+                    out.append(w["text"])
+                    if w.get("inner"):
+                        inner = run_case(w["inner"])
+                        if inner is M.UNSPEC:
+                            return M.UNSPEC
+                        out.append(inner)
+            if not matched and spec.get("else") is not None:
+                out.append(spec["else"])
+            return "".join(out)
+
+        def src_case(spec) -> str:
+            t = "{% case " + spec["subject"] + " %}"
+            for w in spec["whens"]:
+                t += "{% when " + w["value"] + " %}" + w["text"] + (src_case(w["inner"]) if w.get("inner") else "")
+            if spec.get("else") is not None:
+                t += "{% else %}" + spec["else"]
+            return t + "{% endcase %}"
+
+        exp = run_case(case["spec"])
+        src = src_case(case["spec"])
+        sig_tail = "case-nested-in-when"
+        if exp is not M.UNSPEC:
+            o = drv.parse_and_render(env(), src, data, use_async=case.get("async", False))
+            got = o.value if o.ok else f"raised {o.err_class}"
+            if got != exp:
+                ctx.evaluations += 1
+                ctx.violation(sig_tail, f"{src!r} with {data!r:.160} gave {got!r}, R-cond says {exp!r}", {"source": src, "data": V.enc(data)})
+                return
+            ctx.count("nested_case_judged")
+            ctx.ok((case,), nontrivial=True)
+            return
     else:
         raise ValueError(k)
 
@@ -224,15 +272,42 @@ def tree_cases(depth: int, rng, limit: int | None):
                 if tok == "A":
                     v = next(it)
                     nm = next(names)
-                    toks.append({"v": v, "name": nm if rng.random() < 0.7 else None})
+                    if rng.random() < 0.35:
+                        # a variable whose Liquid truthiness is the chosen bit but whose Python truthiness may differ (0, "", [] are truthy)
+                        val = rng.choice([0, "", [], 0.0, {}, "x", 1, [0], True] if v else [None, False])
+                        toks.append({"v": V.enc(val) if not isinstance(val, bool) else val, "name": nm})
+                    else:
+                        toks.append({"v": v, "name": nm if rng.random() < 0.7 else None})
                 else:
                     toks.append(tok)
-            yield {"kind": "tree", "ctx": rng.choice(["if", "unless", "elsif", "ternary"]), "tokens": toks}
+            yield {"kind": "tree", "ctx": rng.choice(["if", "unless", "elsif", "ternary"]), "tokens": toks, "async": rng.random() < 0.3}
+
+
+def gen_nestcase(rng) -> dict[str, Any]:
+    pool = [1, 2, "a", "b", None, True, 1.0, "1"]
+    names = ["s1", "s2", "s3", "w1", "w2", "w3", "w4"]
+    vals = {n: {"t": "val", "v": V.enc(rng.choice(pool))} for n in names}
+    k = [0]
+
+    def case_spec(depth: int) -> dict[str, Any]:
+        whens = []
+        for _ in range(rng.randint(1, 3)):
+            k[0] += 1
+            w = {"value": rng.choice(names[3:] + names[:3]), "text": f"<{k[0]}>"}
+            if depth < 2 and rng.random() < 0.6:
+                w["inner"] = case_spec(depth + 1)
+            whens.append(w)
+        k[0] += 1
+        return {"subject": rng.choice(names[:3]), "whens": whens, "else": f"<e{k[0]}>" if rng.random() < 0.5 else None}
+
+    return {"kind": "nestcase", "vals": vals, "spec": case_spec(0), "async": rng.random() < 0.3}
 
 
 def cases(ctx: core.Ctx):
     rng = ctx.rng("cases")
     idx = 0
+    for _ in range(ctx.budget(1500, 100_000)):
+        yield gen_nestcase(rng)
     # truthiness
     for o in OPERANDS:
         for c in ("if", "unless", "elsif", "ternary"):
